@@ -138,6 +138,15 @@ func c10Gen(r *Rng, id int) c10Hist {
 }
 
 func c10Corpus() []c10Hist {
+	return append(c10Corpus0(), c10Hist{Ops: []c10Op{ // interest accrues for four months, the owner closes a part (the accrued interest is PAID), then third
+		// parties ask for the liquidation of the healthy remainder, before and after more time
+		{Op: "lev_open", U: 1, Amt: "100000000", Lev: "5"}, {Op: "lev_open", U: 2, Amt: "2000000000", Lev: "3"}, {Op: "blocks", N: 17, DT: 604800},
+		{Op: "lev_cp", U: 3, Items: []c10Item{{0, 0}, {0, 1}}}, {Op: "lev_close", U: 1, Idx: 0, Rel: 3}, {Op: "lev_close", U: 2, Idx: 1, Rel: 2}, {Op: "blocks", N: 1, DT: 3700},
+		{Op: "lev_cp", U: 3, Items: []c10Item{{0, 0}, {0, 1}}}, {Op: "blocks", N: 4, DT: 604800}, {Op: "lev_cp", U: 4, Items: []c10Item{{0, 1}, {0, 0}}},
+		{Op: "lev_liq_boundary", U: 3, Idx: 0, Dir: 2}, {Op: "lev_close", U: 1, Idx: 0, Rel: 5}}})
+}
+
+func c10Corpus0() []c10Hist {
 	return []c10Hist{
 		{Ops: []c10Op{ // leveraged LP: third party on a healthy position, boundary health == safety factor and one ulp either side
 			{Op: "lev_open", U: 1, Amt: "10000000", Lev: "5"}, {Op: "lev_open", U: 2, Amt: "2000000000", Lev: "9.5", Rel: 1},
@@ -429,6 +438,14 @@ func (r *c10Run) probeLev(ctx sdk.Context, q c10Req) (pr c10Probe) {
 	}
 	liqGuard, stopGuard := false, false
 	if herr == nil {
+		// the guard value is NOT taken from the function under test alone: the same quantity from first principles (exit value of the
+		// committed shares over principal + interest charged - interest paid) must agree, and it is the one the verdict is judged by
+		if hi, ok := lIndependentLevHealth(r.w, pc, pos); ok {
+			if !hi.Equal(h) {
+				r.fail("C10:lev-health-differs-from-exit-value-over-debt", fmt.Sprintf("position %s/%d: keeper health %s, exit value over debt %s", pos.Address, pos.Id, h, hi))
+			}
+			h = hi
+		}
 		pr.health = h.BigInt()
 		pr.health2 = h.BigInt()
 		pr.liab = r.w.App.StablestakeKeeper.UpdateInterestAndGetDebt(pc, pos.GetPositionAddress()).GetTotalLiablities()
